@@ -165,11 +165,22 @@ def ref_pda_from_case(case, scheme="plain"):
                [(sn[p], GP.IN[a], kn[X], sn[r], tuple(kn[y] for y in gamma)) for p, a, X, r, gamma in trans])
 
 
-def build_pda(case, scheme="plain"):
+def build_pda(case, scheme="plain", lazy=False):
     from .gen import pda as GP
     m = pdamod()
     q, g, trans, fi = case
     sn, kn = GP.names(scheme, q, g)
+    if lazy:
+        # nothing declared up front: start state/symbol, transitions and final states added one by one
+        p = m.PDA()
+        p.set_start_state(sn[0])
+        p.set_start_stack_symbol(kn[0])
+        for s, a, X, r, gamma in trans:
+            p.add_transition(sn[s], "epsilon" if a == 0 else GP.IN[a], kn[X], sn[r], [kn[y] for y in gamma])
+        for i in range(q):
+            if fi >> i & 1:
+                p.add_final_state(sn[i])
+        return p
     p = m.PDA(states=set(sn), input_symbols={"a", "b"}, stack_alphabet=set(kn), start_state=sn[0],
               start_stack_symbol=kn[0], final_states={sn[i] for i in range(q) if fi >> i & 1})
     for s, a, X, r, gamma in trans:
